@@ -101,6 +101,57 @@ func (m *Machine) selectElem(elems []value, idx *Term) value {
 		}
 		return res
 	}
+	// table of concrete strings: fork only on the length, merge equal-length entries into one
+	// string whose bytes are ite-terms over the index
+	allStr := len(elems) > 0
+	for _, e := range elems {
+		if st, ok := e.(Str); !ok || !st.Concrete() {
+			allStr = false
+			break
+		}
+	}
+	if allStr {
+		byLen := map[int][]int{}
+		var lens []int
+		for i, e := range elems {
+			n := e.(Str).Len()
+			if _, ok := byLen[n]; !ok {
+				lens = append(lens, n)
+			}
+			byLen[n] = append(byLen[n], i)
+		}
+		var chosen []int
+		for k, n := range lens {
+			if k == len(lens)-1 || m.decide(m.inSet(idx, byLen[n])) {
+				chosen = byLen[n]
+				break
+			}
+		}
+		n := elems[chosen[0]].(Str).Len()
+		same := true
+		for _, i := range chosen[1:] {
+			if elems[i].(Str).s != elems[chosen[0]].(Str).s {
+				same = false
+				break
+			}
+		}
+		if same {
+			return elems[chosen[0]]
+		}
+		bs := make([]*Term, n)
+		for k := 0; k < n; k++ {
+			col := make([]value, len(elems))
+			dflt := m.T.Const(8, uint64(elems[chosen[0]].(Str).s[k]))
+			for i := range col {
+				col[i] = dflt
+			}
+			for _, i := range chosen {
+				col[i] = m.T.Const(8, uint64(elems[i].(Str).s[k]))
+			}
+			bs[k] = m.selectElem(col, idx).(*Term)
+		}
+		return m.mkStr(bs)
+	}
 	// group by fingerprint; fork per class
 	type class struct {
 		rep  value
